@@ -81,6 +81,7 @@ type Engine struct {
 	attached   map[*Clause]bool
 	detached   []string
 	inlineCon  *Contract
+	curPC      string // path condition of the instruction being executed ("" outside instruction execution)
 }
 
 type sortFact struct {
@@ -258,7 +259,7 @@ func (f *frame) get(v ssa.Value) Val {
 		ref := e.global("fn."+c.String(), "Int")
 		if !e.once["fn:"+ref] {
 			e.once["fn:"+ref] = true
-			e.assume(fmt.Sprintf("(> %s 0)", ref))
+			e.assumeGlobal(fmt.Sprintf("(> %s 0)", ref))
 		}
 		return ClosV{Fn: c, Ref: ref}
 	case *ssa.Builtin:
@@ -284,13 +285,13 @@ func (f *frame) globalLoad(g *ssa.Global) Val {
 		s := SliceV{e.global(name+".b", "Int"), "0", e.global(name+".l", "Int"), e.global(name+".c", "Int")}
 		if !e.once[key] {
 			e.once[key] = true
-			e.assume(e.sliceInv(s))
-			e.assume(fmt.Sprintf("(<= %s pre)", s.B))
+			e.assumeGlobal(e.sliceInv(s))
+			e.assumeGlobal(fmt.Sprintf("(<= %s pre)", s.B))
 			if g.Pkg.Pkg.Name() == "mcap" && g.Name() == "Magic" {
-				e.assume(fmt.Sprintf("(and (= %s 8) (= %s 8) (> %s 0))", s.L, s.C, s.B))
+				e.assumeGlobal(fmt.Sprintf("(and (= %s 8) (= %s 8) (> %s 0))", s.L, s.C, s.B))
 			}
 			if g.Pkg.Pkg.Name() == "ros" && g.Name() == "BagMagic" {
-				e.assume(fmt.Sprintf("(and (= %s 13) (>= %s 13) (> %s 0))", s.L, s.C, s.B))
+				e.assumeGlobal(fmt.Sprintf("(and (= %s 13) (>= %s 13) (> %s 0))", s.L, s.C, s.B))
 			}
 		}
 		return s
@@ -305,33 +306,33 @@ func (f *frame) globalLoad(g *ssa.Global) Val {
 	if !e.once[key] {
 		e.once[key] = true
 		if rf := rangeFact(t, v); rf != "" {
-			e.assume(rf)
+			e.assumeGlobal(rf)
 		}
 		if so == "Int" && !isInt(t) {
-			e.assume(fmt.Sprintf("(<= %s pre)", v))
+			e.assumeGlobal(fmt.Sprintf("(<= %s pre)", v))
 			// package-level error values and maps are initialised, never nil
 			if isIface(t) || isPtr(t) {
 				if strings.HasPrefix(g.Name(), "Err") || g.Name() == "EOF" || strings.HasPrefix(g.Name(), "err") {
-					e.assume(fmt.Sprintf("(> %s 0)", v))
+					e.assumeGlobal(fmt.Sprintf("(> %s 0)", v))
 				}
 			}
 			if _, isMap := under(t).(*types.Map); isMap {
-				e.assume(fmt.Sprintf("(> %s 0)", v))
+				e.assumeGlobal(fmt.Sprintf("(> %s 0)", v))
 			}
 			if !e.w.scope[g.Pkg] {
 				// package-level variables of other packages (io.Discard, io.EOF, ...) are initialised
-				e.assume(fmt.Sprintf("(> %s 0)", v))
+				e.assumeGlobal(fmt.Sprintf("(> %s 0)", v))
 			}
 		}
 		full := g.Pkg.Pkg.Path() + "." + g.Name()
 		switch full {
 		case "io.EOF":
-			e.assume(fmt.Sprintf("(and (isEOF %s) (not (isUEOF %s)) (not (isCRC %s)))", v, v, v))
+			e.assumeGlobal(fmt.Sprintf("(and (isEOF %s) (not (isUEOF %s)) (not (isCRC %s)))", v, v, v))
 		case "io.ErrUnexpectedEOF":
-			e.assume(fmt.Sprintf("(and (isUEOF %s) (not (isEOF %s)) (not (isCRC %s)))", v, v, v))
+			e.assumeGlobal(fmt.Sprintf("(and (isUEOF %s) (not (isEOF %s)) (not (isCRC %s)))", v, v, v))
 		default:
 			if isIface(t) {
-				e.assume(fmt.Sprintf("(and (not (isUEOF %s)) (not (isEOF %s)) (not (isCRC %s)))", v, v, v))
+				e.assumeGlobal(fmt.Sprintf("(and (not (isUEOF %s)) (not (isEOF %s)) (not (isCRC %s)))", v, v, v))
 			}
 		}
 	}
@@ -522,6 +523,8 @@ func (e *Engine) execP(parent *frame, fn *ssa.Function, args []Val, binds []Val,
 		if len(conds) == 0 {
 			continue // unreachable
 		}
+		savedPC := e.curPC
+		e.curPC = ""
 		bpc := e.define(prefix+fmt.Sprintf("pc.b%d", b.Index), "Bool", or(conds...))
 		h := e.mergeHeaps(conds, hs)
 		li := f.loops[b]
@@ -534,6 +537,7 @@ func (e *Engine) execP(parent *frame, fn *ssa.Function, args []Val, binds []Val,
 			if !alive {
 				break
 			}
+			e.curPC = bpc
 			if li != nil {
 				if _, isPhi := ins.(*ssa.Phi); isPhi {
 					continue // handled by enterLoop
@@ -541,9 +545,11 @@ func (e *Engine) execP(parent *frame, fn *ssa.Function, args []Val, binds []Val,
 			}
 			alive = f.step(b, ins, bpc, h, preds, conds)
 		}
+		e.curPC = ""
 		f.heaps[b] = h
 		if !alive {
 			f.pcs[b] = "false"
+			e.curPC = savedPC
 			continue
 		}
 		for _, s := range b.Succs {
@@ -551,6 +557,7 @@ func (e *Engine) execP(parent *frame, fn *ssa.Function, args []Val, binds []Val,
 				f.backEdge(f.loops[s], b, and(bpc, edgeCond(f, b, s)), h)
 			}
 		}
+		e.curPC = savedPC
 	}
 	if len(f.rets) == 0 {
 		return nil, "false", heap, f
@@ -688,7 +695,7 @@ func (f *frame) enterLoop(li *loopInfo, b *ssa.BasicBlock, pc0 string, h *Heap, 
 		}
 	}
 	pcL := e.fresh(f.prefix+fmt.Sprintf("pcL.b%d", b.Index), "Bool")
-	e.assume(imp(pcL, pc0))
+	e.assumeGlobal(imp(pcL, pc0))
 	li.headHeap = h.clone()
 	li.headPC = pcL
 	// 4. assume invariants
@@ -1230,7 +1237,7 @@ func (f *frame) binop(in *ssa.BinOp, pc string) Val {
 		xs, ys := e.scalar(x), e.scalar(y)
 		e.assume(fmt.Sprintf("(= (slen %s) (+ (slen %s) (slen %s)))", r, xs, ys))
 		e.useStrQ = true
-		e.assume(fmt.Sprintf("(forall ((i Int)) (! (= (sat %s i) (ite (< i (slen %s)) (sat %s i) (sat %s (- i (slen %s))))) :pattern ((sat %s i))))", r, xs, xs, ys, xs, r))
+		e.assumeGlobal(fmt.Sprintf("(forall ((i Int)) (! (= (sat %s i) (ite (< i (slen %s)) (sat %s i) (sat %s (- i (slen %s))))) :pattern ((sat %s i))))", r, xs, xs, ys, xs, r))
 		return Sc{r}
 	}
 	xs, ys := e.scalar(x), e.scalar(y)
@@ -1310,7 +1317,7 @@ func (f *frame) convert(in *ssa.Convert, pc string, h *Heap) Val {
 			if sortOf(under(from).(*types.Slice).Elem()) == "Int" {
 				arr := e.comp(h, "E."+tname(under(from).(*types.Slice).Elem()), "Int", true)
 				e.useStrQ = true
-				e.assume(fmt.Sprintf("(forall ((i Int)) (! (=> (and (<= 0 i) (< i %s)) (= (sat %s i) (select (select %s %s) (+ %s i)))) :pattern ((sat %s i))))", s.L, r, arr, s.B, s.O, r))
+				e.assumeGlobal(fmt.Sprintf("(forall ((i Int)) (! (=> (and (<= 0 i) (< i %s)) (= (sat %s i) (select (select %s %s) (+ %s i)))) :pattern ((sat %s i))))", s.L, r, arr, s.B, s.O, r))
 			}
 			return Sc{r}
 		}
@@ -1328,7 +1335,7 @@ func (f *frame) convert(in *ssa.Convert, pc string, h *Heap) Val {
 			arr := e.comp(h, name, "Int", true)
 			a := e.fresh(nm+".bytes", "(Array Int Int)")
 			e.useStrQ = true
-			e.assume(fmt.Sprintf("(forall ((i Int)) (! (=> (and (<= 0 i) (< i %s)) (= (select %s i) (sat %s i))) :pattern ((select %s i))))", l, a, xs, a))
+			e.assumeGlobal(fmt.Sprintf("(forall ((i Int)) (! (=> (and (<= 0 i) (< i %s)) (= (select %s i) (sat %s i))) :pattern ((select %s i))))", l, a, xs, a))
 			e.setComp(h, name, fmt.Sprintf("(store %s %s %s)", arr, r, a))
 		}
 		return SliceV{r, "0", l, l}
@@ -1402,7 +1409,7 @@ func (f *frame) slice(in *ssa.Slice, pc string, h *Heap) Val {
 			r := e.fresh(nm, "Str")
 			e.assume(fmt.Sprintf("(= (slen %s) (- %s %s))", r, hi, lo))
 			e.useStrQ = true
-			e.assume(fmt.Sprintf("(forall ((i Int)) (! (=> (and (<= 0 i) (< i (- %s %s))) (= (sat %s i) (sat %s (+ %s i)))) :pattern ((sat %s i))))", hi, lo, r, xv.T, lo, r))
+			e.assumeGlobal(fmt.Sprintf("(forall ((i Int)) (! (=> (and (<= 0 i) (< i (- %s %s))) (= (sat %s i) (sat %s (+ %s i)))) :pattern ((sat %s i))))", hi, lo, r, xv.T, lo, r))
 			return Sc{r}
 		}
 	}
@@ -1436,7 +1443,7 @@ func (f *frame) makeInterface(in *ssa.MakeInterface, pc string, h *Heap) Val {
 			if !e.once[key] {
 				e.once[key] = true
 				// the interface value wrapping a pointer is as old as the object pointed to
-				e.assume(fmt.Sprintf("(and (= (dyntag %s) %d) (= (payload %s) %s) (> %s 0) (= (> %s pre) (> %s pre)))", r, tag, r, xv.L.Ref, r, r, xv.L.Ref))
+				e.assumeGlobal(fmt.Sprintf("(and (= (dyntag %s) %d) (= (payload %s) %s) (> %s 0) (= (> %s pre) (> %s pre)))", r, tag, r, xv.L.Ref, r, r, xv.L.Ref))
 			}
 		}
 	}
@@ -1453,13 +1460,13 @@ func (f *frame) makeInterface(in *ssa.MakeInterface, pc string, h *Heap) Val {
 			e.once[key] = true
 			switch tn {
 			case "*mcap.ErrTruncatedRecord":
-				e.assume(fmt.Sprintf("(and (isUEOF %s) (not (isEOF %s)) (not (isCRC %s)))", r, r, r))
+				e.assumeGlobal(fmt.Sprintf("(and (isUEOF %s) (not (isEOF %s)) (not (isCRC %s)))", r, r, r))
 			case "*mcap.errInvalidChunkCrc":
-				e.assume(fmt.Sprintf("(and (isCRC %s) (not (isEOF %s)) (not (isUEOF %s)))", r, r, r))
+				e.assumeGlobal(fmt.Sprintf("(and (isCRC %s) (not (isEOF %s)) (not (isUEOF %s)))", r, r, r))
 			case "*mcap.ErrUnexpectedToken":
 				// Is() delegates to the wrapped error: classification left open
 			default:
-				e.assume(fmt.Sprintf("(and (not (isCRC %s)) (not (isEOF %s)) (not (isUEOF %s)))", r, r, r))
+				e.assumeGlobal(fmt.Sprintf("(and (not (isCRC %s)) (not (isEOF %s)) (not (isUEOF %s)))", r, r, r))
 			}
 		}
 	}
